@@ -18,6 +18,8 @@ type comparison =
 | Lt
 | Gt
 
+val compOpp : comparison -> comparison
+
 val add : nat -> nat -> nat
 
 val mul : nat -> nat -> nat
@@ -26,14 +28,26 @@ val sub : nat -> nat -> nat
 
 module Nat :
  sig
+  val eqb : nat -> nat -> bool
+
   val leb : nat -> nat -> bool
 
   val ltb : nat -> nat -> bool
  end
 
+val tl : 'a1 list -> 'a1 list
+
 val nth : nat -> 'a1 list -> 'a1 -> 'a1
 
+val nth_error : 'a1 list -> nat -> 'a1 option
+
+val rev_append : 'a1 list -> 'a1 list -> 'a1 list
+
+val rev' : 'a1 list -> 'a1 list
+
 val map : ('a1 -> 'a2) -> 'a1 list -> 'a2 list
+
+val flat_map : ('a1 -> 'a2 list) -> 'a1 list -> 'a2 list
 
 val fold_left : ('a1 -> 'a2 -> 'a1) -> 'a2 list -> 'a1 -> 'a1
 
@@ -42,6 +56,8 @@ val existsb : ('a1 -> bool) -> 'a1 list -> bool
 val filter : ('a1 -> bool) -> 'a1 list -> 'a1 list
 
 val firstn : nat -> 'a1 list -> 'a1 list
+
+val skipn : nat -> 'a1 list -> 'a1 list
 
 val seq : nat -> nat -> nat list
 
@@ -190,6 +206,18 @@ module Z :
 
   val sub : z -> z -> z
 
+  val mul : z -> z -> z
+
+  val pow_pos : z -> positive -> z
+
+  val pow : z -> z -> z
+
+  val compare : z -> z -> comparison
+
+  val leb : z -> z -> bool
+
+  val ltb : z -> z -> bool
+
   val eqb : z -> z -> bool
 
   val to_nat : z -> nat
@@ -199,7 +227,15 @@ module Z :
   val of_nat : nat -> z
 
   val of_N : n -> z
+
+  val pos_div_eucl : positive -> z -> z * z
+
+  val div_eucl : z -> z -> z * z
+
+  val modulo : z -> z -> z
  end
+
+val pANIC : z
 
 val bADCASE : z
 
@@ -209,9 +245,100 @@ val bz : z -> bool
 
 val put_list : z list -> z list
 
+val get_list : z list -> z list * z list
+
+val get_lists : nat -> z list -> z list list * z list
+
 val of_Ns : n list -> z list
 
-val upd : n list -> nat -> n -> n list
+val m32 : z
+
+val u32 : z -> z
+
+val upd : 'a1 list -> nat -> 'a1 -> 'a1 list
+
+type phase =
+| Free of z
+| PushOwned of z
+| Published of z
+| PopOwned of z
+
+type lin_ev =
+| LPush of z
+| LPop of z
+
+type shared = { slots : (z option * z) list; hd : z; tl0 : z; cap : z;
+                q : z list; ph : phase list; lin : lin_ev list }
+
+type pc =
+| Idle
+| PuLoadTail of z
+| PuLoadSeq of z * z * z
+| PuCas of z * z * z * z
+| PuWrite of z * z * z * z
+| PuPublish of z * z * z * z
+| PoLoadHead
+| PoLoadSeq of z * z
+| PoCas of z * z * z
+| PoRead of z * z * z * z
+| PoClear of z * z * z * z * z option
+| PoRelease of z * z * z * z * z option
+
+type op =
+| OpPush of z
+| OpPop
+
+type res =
+| RPush of bool
+| RPop of z option * z option
+
+val sidx : shared -> z -> nat
+
+val set_slot : shared -> nat -> (z option * z) -> phase -> shared
+
+val tstep : shared -> pc -> op -> ((shared * pc) * res option) option
+
+type config = { sh : shared; ths : pc list; hist : (nat * res) list }
+
+val step : config -> (nat * op) -> config option
+
+val evLoadU32 : z
+
+val evStoreU32 : z
+
+val evCasU32 : z
+
+val locHead : z
+
+val locTail : z
+
+val loc_slot : shared -> z -> z
+
+val slot_seq : shared -> z -> z
+
+val observe : shared -> pc -> z list
+
+val dec_op : z -> op
+
+val updl : 'a1 list -> nat -> 'a1 -> 'a1 list
+
+val go : config -> z list list -> z list -> z list -> (config * z list) option
+
+val fill_val : z -> z
+
+val seq_state : z -> z -> z -> nat -> config
+
+val enc_res : res -> z list
+
+val results_of : (nat * res) list -> nat -> z list
+
+val enc_slot : (z option * z) -> z list
+
+val run_case : z list -> z list
+
+val entry : z -> z list -> z list
+
+val upd0 : n list -> nat -> n -> n list
 
 val widx : n -> nat
 
@@ -255,7 +382,7 @@ type bits = { words : n list; cached : z }
 
 val grow : n list -> n -> n list
 
-val cap : n list -> n
+val cap0 : n list -> n
 
 val b_add : bits -> n -> bits * bool
 
@@ -272,7 +399,7 @@ type kind =
 | KBitmap
 | KDsz
 
-type op =
+type op0 =
 | OAdd of bool * n
 | ORemove of bool * n
 | OContains of bool * n
@@ -293,9 +420,9 @@ val upd2 : bool -> ('a1 * 'a1) -> 'a1 -> 'a1 * 'a1
 
 val len_of : kind -> bits -> z
 
-val step : kind -> (bits * bits) -> op -> (bits * bits) * z list
+val step0 : kind -> (bits * bits) -> op0 -> (bits * bits) * z list
 
-val run : kind -> (bits * bits) -> op list -> z list
+val run : kind -> (bits * bits) -> op0 list -> z list
 
 val empty : bits
 
@@ -315,18 +442,18 @@ type sset = { elems : n list; scap : n }
 
 val need : n -> n
 
-val s_step : kind -> (sset * sset) -> op -> (sset * sset) * z list
+val s_step : kind -> (sset * sset) -> op0 -> (sset * sset) * z list
 
-val s_run : kind -> (sset * sset) -> op list -> z list
+val s_run : kind -> (sset * sset) -> op0 list -> z list
 
 val s_empty : sset
 
 val dec_kind : z -> kind
 
-val dec_op : z -> z -> z -> op option
+val dec_op0 : z -> z -> z -> op0 option
 
-val dec_ops : nat -> z list -> op list option
+val dec_ops : nat -> z list -> op0 list option
 
-val entry : z -> z list -> z list
+val entry0 : z -> z list -> z list
 
 val dispatch : z -> z -> z list -> z list
